@@ -5,19 +5,22 @@ from __future__ import annotations
 import random
 
 NAMES = ["tq1", "tq2", "tq3", "tq4"]
-WORDS = ["a", "b", "foo", "Bar", "x1", "42", "7", "0", "zz"]
+WORDS = ["a", "b", "foo", "Bar", "x1", "42", "7", "0", "zz", "1", "1.0", "01", "+1", "-0", "0.50", ".5", "7.", "#default"]
 
 
 def ser(node, classes):
     """serialise a real parse tree into the driver's prefix token form."""
-    Node, Template, Variable, IfNode, eqmark = classes
+    Node, Template, Variable, IfNode, eqmark, IfEqNode, SwitchNode = classes
     if isinstance(node, str):
         if node is eqmark:
             return "e"
         return "x" + ",".join(str(ord(c)) for c in node)
     t = type(node)
-    if t in (tuple, list) or t is Node:
+    if t in (tuple, list):
         return f"s{len(node)} " + " ".join(ser(x, classes) for x in node) if len(node) else "s0"
+    if t is Node:
+        # the base class is not a plain tuple for `#switch` (never a "fast" key): keep it apart
+        return "s1 " + (f"s{len(node)} " + " ".join(ser(x, classes) for x in node) if len(node) else "s0")
     if t is Template:
         args = node[1]
         return f"t{len(args)} " + ser(node[0], classes) + ("" if not args else " " + " ".join(ser(a, classes) for a in args))
@@ -27,15 +30,20 @@ def ser(node, classes):
         return "v0 " + ser(node[0], classes)
     if t is IfNode:
         return f"i{len(node)} " + " ".join(ser(x, classes) for x in node)
+    if t is IfEqNode:
+        return f"q{len(node)} " + " ".join(ser(x, classes) for x in node)
+    if t is SwitchNode:
+        cases = node[1]
+        return f"w{len(cases)} " + ser(node[0], classes) + ("" if not cases else " " + " ".join(ser(a, classes) for a in cases))
     return "o"
 
 
 def classes():
     from mwlib.parser.templ.marks import eqmark
     from mwlib.parser.templ.node import Node
-    from mwlib.parser.templ.nodes import IfNode, Template, Variable
+    from mwlib.parser.templ.nodes import IfEqNode, IfNode, SwitchNode, Template, Variable
 
-    return (Node, Template, Variable, IfNode, eqmark)
+    return (Node, Template, Variable, IfNode, eqmark, IfEqNode, SwitchNode)
 
 
 class UGen:
@@ -75,13 +83,35 @@ class UGen:
                 a = self.text(depth - 1, callable_names, params)
                 b = self.text(depth - 1, callable_names, params)
                 parts.append("{{#if:" + self.ws() + c + self.ws() + "|" + self.ws() + a + self.ws() + ("|" + b if r.random() < 0.7 else "") + "}}")
-            elif k < 0.95:
+            elif k < 0.93:
+                a, b = (self.text(depth - 1, callable_names, params) for _ in range(2))
+                if r.random() < 0.4:
+                    b = a if r.random() < 0.5 else r.choice(["1", "1.0", "01", "+1", "0.50", ".5"])
+                    a = a if b is a else r.choice(["1", "1.0", "01", "+1", "0.5", ".50"])
+                br = [self.text(depth - 1, callable_names, params) for _ in range(r.randint(0, 3))]
+                parts.append("{{#ifeq:" + self.ws() + a + self.ws() + "|" + self.ws() + b + self.ws() + "".join("|" + self.ws() + x + self.ws() for x in br) + "}}")
+            elif k < 0.96:
+                parts.append(self.switch(depth - 1, callable_names, params))
+            elif k < 0.975:
                 parts.append(r.choice(["* ", "# ", ": ", "; ", "{| ", "\n* "]) + self.word())
             elif self.unbalanced:
                 parts.append(r.choice(["{{", "}}", "{{{", "}}}", "{", "}", "|", "=", "[[", "]]", "{{tq1", "{{{1"]))
             else:
                 parts.append(self.word())
         return r.choice(["", " "]).join(parts)
+
+    def switch(self, depth, callable_names, params):
+        r = self.rng
+        val = self.text(depth, callable_names, params) if r.random() < 0.6 else self.word()
+        cases = []
+        for _ in range(r.randint(0, 5)):
+            k = r.random()
+            key = self.word() if k < 0.7 else ("#default" if k < 0.8 else self.text(depth, callable_names, params))
+            if r.random() < 0.25:
+                cases.append(self.ws() + key + self.ws())              # falls through / default
+            else:
+                cases.append(self.ws() + key + self.ws() + "=" + self.ws() + self.text(depth, callable_names, params) + self.ws())
+        return "{{#switch:" + self.ws() + val + self.ws() + "".join("|" + c for c in cases) + "}}"
 
     def call(self, depth, callable_names, params):
         r = self.rng
@@ -110,11 +140,54 @@ class UGen:
         return page, db
 
 
-def expand_real(page, db, limit=100):
-    """run the real expander; returns (result | ('exc', type), parsed page, parsed templates)."""
-    from mwlib.parser.expander import DictDB, Expander
+LIMIT_HITS = [0]
 
-    ex = Expander(page, pagename="Thispage", wikidb=DictDB(dict(db)), recursion_limit=limit)
+
+def wiki_db(pages, lang="en"):
+    """the repo's DictDB test double completed with what a real wiki database (nuwiki.Adapt) also
+    offers and some parser functions use: nshandler, normalize_and_get_image_path."""
+    from mwlib.core import nshandling
+    from mwlib.network.siteinfo import get_siteinfo
+    from mwlib.parser.expander import DictDB
+
+    class DB(DictDB):
+        def normalize_and_get_image_path(self, name):
+            return None
+
+        def normalize_and_get_page(self, title, defaultns=0):
+            raw = self.data_dict.get(title.lower().replace(" ", "_"))
+            return None if raw is None else super().normalize_and_get_page(title, defaultns)
+
+    db = DB(dict(pages))
+    db.siteinfo = get_siteinfo(lang)
+    db.nshandler = nshandling.NsHandler(db.siteinfo)
+    return db
+
+
+class _CountingLog:
+    def __init__(self, inner):
+        self.inner = inner
+
+    def warning(self, *a, **k):
+        LIMIT_HITS[0] += 1
+
+    warn = warning
+
+    def __getattr__(self, n):
+        return getattr(self.inner, n)
+
+
+def expand_real(page, db, limit=100):
+    """run the real expander; returns (result | ('exc', type), parsed page, parsed templates).
+    LIMIT_HITS[0] counts the TemplateRecursion errors swallowed during this expansion."""
+    from mwlib.parser.expander import DictDB, Expander
+    from mwlib.parser.templ import evaluate
+
+    if not isinstance(evaluate.log, _CountingLog):
+        evaluate.log = _CountingLog(evaluate.log)
+    LIMIT_HITS[0] = 0
+
+    ex = Expander(page, pagename="Thispage", wikidb=wiki_db(db), recursion_limit=limit)
     trees = {}
     for n in list(db) + ["missing"]:
         trees[n] = ex.get_parsed_template(n)
